@@ -18,6 +18,7 @@ the executable Spec that judges the real providers to the model.
 import Pandora.Proofs.C14Spec
 import Pandora.Proofs.C14Hdr
 import Pandora.Bridge.C14
+import Pandora.Model.C14Fin
 
 namespace Pandora.Props.C14
 open Pandora.Model.C08 hiding fullScan httpRun runFuel run
@@ -279,14 +280,15 @@ theorem C14_listed_is_source_filter (tags cases : List String) :
 of ammo a bounded cell delivers — greater: never reached; smaller: the run is cancelled in the middle): the
 executable Spec that judges the two real providers accepts the pair of observations the model predicts — for every
 format, file (also the empty one and the one NewProvider rejects), chosencases list, limit and passes. -/
-theorem C14_spec_holds (k : Fmt) (tags cases : List String) (limit passes cap : Nat) (hcap : 0 < cap)
-    (hne : Spec.C14.inconclusive ⟨tags, cases, limit, passes, cap⟩ = false) :
-    Spec.C14.holds ⟨tags, cases, limit, passes, cap⟩ (Drv.C14.modelObsOf k tags cases ⟨limit, passes⟩ cap) = true := by
+theorem C14_spec_holds (k : Fmt) (tags cases : List String) (limit passes cap : Nat) (hasFile closeFails : Bool)
+    (hcap : 0 < cap) (hne : Spec.C14.inconclusive ⟨tags, cases, limit, passes, cap⟩ = false) :
+    Spec.C14.holds ⟨tags, cases, limit, passes, cap⟩
+      (Drv.C14.modelObsOf k tags cases ⟨limit, passes⟩ cap hasFile closeFails) = true := by
   have hcne : (if cap = 0 then none else some cap) = some cap := by rw [if_neg (by omega)]
   have hc0 : some cap ≠ some 0 := by simp; omega
   -- both sides of the model's observation are the same Side
-  have hsame : Drv.C14.modelSideOf k true tags cases ⟨limit, passes⟩ cap
-      = Drv.C14.modelSideOf k false tags cases ⟨limit, passes⟩ cap := by
+  have hsame : Drv.C14.modelSideOf k true tags cases ⟨limit, passes⟩ cap hasFile closeFails
+      = Drv.C14.modelSideOf k false tags cases ⟨limit, passes⟩ cap hasFile closeFails := by
     unfold Drv.C14.modelSideOf
     split
     · rw [hcne]; unfold run; rw [C14_equiv k (mkFile tags) (isChosen cases) ⟨limit, passes⟩ (some cap) hc0]
@@ -301,7 +303,7 @@ theorem C14_spec_holds (k : Fmt) (tags cases : List String) (limit passes cap : 
     rw [if_pos hno]
     have hf : ((mkFile tags).filter (isChosen cases)).length = 0 := by
       unfold Spec.C14.noMatch at hno; rw [hidlen] at hno; simpa using hno
-    have hseq : (Drv.C14.modelSideOf k false tags cases ⟨limit, passes⟩ cap).seq = [] := by
+    have hseq : (Drv.C14.modelSideOf k false tags cases ⟨limit, passes⟩ cap hasFile closeFails).seq = [] := by
       unfold Drv.C14.modelSideOf
       split
       · rw [hcne]; unfold run
@@ -323,8 +325,8 @@ theorem C14_spec_holds (k : Fmt) (tags cases : List String) (limit passes cap : 
       cases tags with
       | nil => simp at hn
       | cons t ts => simp
-    have hside : Drv.C14.modelSideOf k false tags cases ⟨limit, passes⟩ cap
-        = Drv.C14.sideOf cap (run k false tags cases ⟨limit, passes⟩ (some cap)) := by
+    have hside : Drv.C14.modelSideOf k false tags cases ⟨limit, passes⟩ cap hasFile closeFails
+        = Drv.C14.sideOf cap hasFile closeFails (run k false tags cases ⟨limit, passes⟩ (some cap)) := by
       unfold Drv.C14.modelSideOf; rw [if_pos hcon, hcne]
     have hcount : Spec.C14.expectedCount ⟨tags, cases, limit, passes, cap⟩
         = Spec.C14.expected limit passes ((mkFile tags).filter (isChosen cases)).length := by
@@ -354,8 +356,8 @@ theorem C14_spec_holds (k : Fmt) (tags cases : List String) (limit passes cap : 
           refine ⟨m, by rw [htc, Nat.min_eq_right (by omega)], by simp [hcount, hE, hlt], by simp [hcount, hE, hlt, hnle]⟩
     obtain ⟨T, hTt, hTlen, hTcut⟩ := hT
     have hchosen : Spec.C14.chosenOk ⟨tags, cases, limit, passes, cap⟩
-        ⟨Drv.C14.modelSideOf k false tags cases ⟨limit, passes⟩ cap,
-         Drv.C14.modelSideOf k false tags cases ⟨limit, passes⟩ cap, true⟩ = true := by
+        ⟨Drv.C14.modelSideOf k false tags cases ⟨limit, passes⟩ cap hasFile closeFails,
+         Drv.C14.modelSideOf k false tags cases ⟨limit, passes⟩ cap hasFile closeFails, true⟩ = true := by
       rw [hside]
       unfold Spec.C14.chosenOk Spec.C14.expectedSeq
       unfold run
@@ -578,8 +580,10 @@ theorem C14_scan_model_is_source :
   ⟨Bridge.C14.scanStream_limit_source, Bridge.C14.scanLoop_eof_source, Bridge.C14.scanLoop_top_source, Bridge.C14.eof_same⟩
 
 /-- the model's two sides of a cell are the same `Side` -/
-theorem C14_model_sides_agree (k : Fmt) (tags cases : List String) (b : Bounds) (cap : Nat) (hcap : 0 < cap) :
-    Drv.C14.modelSideOf k true tags cases b cap = Drv.C14.modelSideOf k false tags cases b cap := by
+theorem C14_model_sides_agree (k : Fmt) (tags cases : List String) (b : Bounds) (cap : Nat) (hasFile closeFails : Bool)
+    (hcap : 0 < cap) :
+    Drv.C14.modelSideOf k true tags cases b cap hasFile closeFails
+      = Drv.C14.modelSideOf k false tags cases b cap hasFile closeFails := by
   have hcne : (if cap = 0 then none else some cap) = some cap := by rw [if_neg (by omega)]
   have hc0 : some cap ≠ some 0 := by simp; omega
   unfold Drv.C14.modelSideOf
@@ -591,13 +595,14 @@ theorem C14_model_sides_agree (k : Fmt) (tags cases : List String) (b : Bounds) 
 with header declarations, the executable Spec that judges the two real providers — now also: no side kills its
 process, every delivered request has the method and body of its entry, both sides carry the same Host / headers per
 entry, and these are the ones the source declares — accepts the observation the model predicts. -/
-theorem C14_spec_holds_hdr (k : Fmt) (src : Source) (cases : List String) (limit passes cap : Nat) (hcap : 0 < cap)
+theorem C14_spec_holds_hdr (k : Fmt) (src : Source) (cases : List String) (limit passes cap : Nat)
+    (hasFile closeFails : Bool) (hcap : 0 < cap)
     (hne : Spec.C14.inconclusive ⟨src.tags, cases, limit, passes, cap⟩ = false) :
     Spec.C14.holdsH ⟨src.tags, cases, limit, passes, cap⟩ (Drv.C14.ehdrOf k src)
-      (Drv.C14.modelObsHOf k src cases ⟨limit, passes⟩ cap) = true := by
-  have hb := C14_spec_holds k src.tags cases limit passes cap hcap hne
-  have hs := C14_model_sides_agree k src.tags cases ⟨limit, passes⟩ cap hcap
-  have hf1 := modelSideOf_not_fatal k false src.tags cases ⟨limit, passes⟩ cap
+      (Drv.C14.modelObsHOf k src cases ⟨limit, passes⟩ cap hasFile closeFails) = true := by
+  have hb := C14_spec_holds k src.tags cases limit passes cap hasFile closeFails hcap hne
+  have hs := C14_model_sides_agree k src.tags cases ⟨limit, passes⟩ cap hasFile closeFails hcap
+  have hf1 := modelSideOf_not_fatal k false src.tags cases ⟨limit, passes⟩ cap hasFile closeFails
   unfold Drv.C14.modelObsOf at hb
   rw [hs] at hb
   unfold Spec.C14.holdsH Drv.C14.modelObsHOf
@@ -605,6 +610,110 @@ theorem C14_spec_holds_hdr (k : Fmt) (src : Source) (cases : List String) (limit
   simp [hb, hf1]
 
 end Headers
+
+/-! ## round 3: how `Run` ENDS — the deferred function (sink, source, ONE error) -/
+
+section Epilogue
+
+/-- **preload is behaviour-preserving, the end of `Run` included**: for every format, file, filter, bound and
+cancellation point, whether or not `p.Close` is set and whether or not closing the ammo source FAILS, the whole run —
+the delivered sequence, the sink closed, how often the source was closed, and the ONE error `Run` returns (as errors.Is
+sees it: the provider's own class and/or the error of `Close`) — is identical with preload off and on. -/
+theorem C14_equiv_final (k : Fmt) (file : List α) (chosen : α → Bool) (b : Bounds) (cancelAt : Option Nat)
+    (hasClose closeFails : Bool) (hc : cancelAt ≠ some 0) :
+    runFinal k false file chosen b cancelAt hasClose closeFails = runFinal k true file chosen b cancelAt hasClose closeFails := by
+  unfold runFinal
+  rw [C14_equiv k file chosen b cancelAt hc]
+
+/-- … and what that run is, explicitly (something chosen, the run stops at count `T`): the first `T` entries of the
+repeated chosen list, then the epilogue applied to nil (resp. context.Canceled iff the cancellation stopped it). -/
+theorem C14_final_run (k : Fmt) (preload : Bool) (file : List α) (chosen : α → Bool) (b : Bounds)
+    (cancelAt : Option Nat) (T : Nat) (hasClose closeFails : Bool) (hf : 0 < (file.filter chosen).length)
+    (hT : target b.limit b.passes (file.filter chosen).length cancelAt = some T) :
+    runFinal k preload file chosen b cancelAt hasClose closeFails
+      = some ⟨cyclicPrefix (file.filter chosen) T,
+              epilogue hasClose closeFails (EV.ofRun (if cancelled cancelAt T then .canceled else .nil))⟩ := by
+  unfold runFinal
+  rw [C14_run k preload file chosen b cancelAt T hf hT]
+  rfl
+
+/-- nothing chosen: nothing delivered, the epilogue applied to "no ammo in file" — in both modes -/
+theorem C14_final_nomatch (k : Fmt) (preload : Bool) (file : List α) (chosen : α → Bool) (b : Bounds)
+    (cancelAt : Option Nat) (hasClose closeFails : Bool) (hf : (file.filter chosen).length = 0) (hc : cancelAt ≠ some 0) :
+    runFinal k preload file chosen b cancelAt hasClose closeFails
+      = some ⟨[], epilogue hasClose closeFails (EV.ofRun .errNoAmmo)⟩ := by
+  unfold runFinal
+  rw [C14_nomatch k preload file chosen b cancelAt hf hc]
+  rfl
+
+/-- **the source is closed exactly once, the sink is closed** — by every run that returns, in both modes, whatever
+the path ended with and whether or not closing fails (never twice: not early by the preloaded path and again at the
+end; never not at all). -/
+theorem C14_close_once (k : Fmt) (preload : Bool) (file : List α) (chosen : α → Bool) (b : Bounds)
+    (cancelAt : Option Nat) (hasClose closeFails : Bool) (o : Final α)
+    (h : runFinal k preload file chosen b cancelAt hasClose closeFails = some o) :
+    o.fin.closeCalls = (if hasClose then 1 else 0) ∧ o.fin.sinkClosed = true := by
+  unfold runFinal at h
+  cases hr : runWith k preload file chosen b cancelAt with
+  | none => rw [hr] at h; cases h
+  | some o' =>
+    rw [hr] at h
+    cases h
+    cases hasClose <;> cases closeFails <;> cases hre : o'.run <;>
+      simp [finish, epilogue, hre, EV.ofRun, EV.isNil, EV.ofClose, EV.join]
+
+/-- **a failing `Close` is never swallowed and never changes what was delivered**: with `p.Close` set and closing
+failing, `Run` returns a non-nil error in both modes; if the path itself ended with nil (a bounded run that was not
+cancelled) that error IS the error of `Close`; if the path ended with an error of its own (cancelled, "no ammo") the two
+are made into one error in which errors.Is finds neither (xerrors.Errorf with two `%w`).  When closing succeeds the
+epilogue returns the path's result untouched. -/
+theorem C14_close_fault (k : Fmt) (preload : Bool) (file : List α) (chosen : α → Bool) (b : Bounds)
+    (cancelAt : Option Nat) (closeFails : Bool) (o : Outcome α)
+    (h : runWith k preload file chosen b cancelAt = some o) :
+    ∃ f, runFinal k preload file chosen b cancelAt true closeFails = some f ∧ f.delivered = o.delivered ∧
+      (closeFails = false → f.fin.err = EV.ofRun o.run) ∧
+      (closeFails = true → f.fin.err.isNil = false ∧
+        (o.run = .nil → f.fin.err = EV.ofClose true) ∧
+        (o.run ≠ .nil → f.fin.err = ⟨.errOther, false⟩)) := by
+  refine ⟨finish true closeFails o, by simp [runFinal, h], rfl, ?_, ?_⟩
+  · intro hcf; subst hcf; simp [finish, epilogue]
+  · intro hcf; subst hcf
+    cases hre : o.run <;> simp [finish, epilogue, hre, EV.ofRun, EV.isNil, EV.ofClose, EV.join]
+
+/-- **the epilogue is the source**: the deferred function of `Run` regenerated statement by statement (area
+"chosencases", gen/area_chosencases_fin.go) is `Model.C14.epilogue`; the `Close` field is called nowhere else in package
+provider, the `defer` stands before every `return` of Run, and NewProvider fills the field. -/
+theorem C14_epilogue_is_source :
+    (∀ hasClose closeFails e, Gen.ChosenCases.httpRunDefer hasClose closeFails e = epilogue hasClose closeFails e) ∧
+    Gen.ChosenCases.closeCallsElsewhere = 0 ∧ Gen.ChosenCases.deferBeforeReturns = true ∧
+    Gen.ChosenCases.newProviderSetsClose = true :=
+  ⟨Bridge.C14.epilogue_source, Bridge.C14.close_sites_source.1, Bridge.C14.close_sites_source.2.1,
+   Bridge.C14.close_sites_source.2.2⟩
+
+/-- The variant in which the sentinel mapping of the preloaded path (ErrAmmoLimit / ErrPassLimit ↦ nil) is done at the
+END of the deferred function, after Run's result and the error of Close were made into one: "both paths end the same
+way whatever ended them". -/
+def C14_equiv_latemap_statement : Prop :=
+  ∀ (hasClose closeFails : Bool) (endedBy : RunRes),
+    Late.epilogue hasClose closeFails (Late.pathResult false endedBy)
+      = Late.epilogue hasClose closeFails (Late.pathResult true endedBy)
+
+/-- true as long as closing the source succeeds (that is why no test without a failing Close notices) … -/
+theorem C14_equiv_latemap_partial (hasClose : Bool) (endedBy : RunRes) :
+    Late.epilogue hasClose false (Late.pathResult false endedBy)
+      = Late.epilogue hasClose false (Late.pathResult true endedBy) := by
+  cases hasClose <;> cases endedBy <;> decide
+
+/-- … and false when it fails: a preloaded run that ends at its pass limit hands "passes limit faced" to the deferred
+function, which combines it with the error of Close into an error in which the sentinel is no longer found — `Run`
+returns that, while the streaming run (whose path already returned nil) returns the error of Close. -/
+theorem C14_equiv_latemap_counterexample : ¬ C14_equiv_latemap_statement := by
+  intro h
+  have := h true true .errPasses
+  revert this
+  decide
+
+end Epilogue
 
 /-! ## non-vacuity: concrete cells, evaluated by the kernel -/
 
@@ -698,5 +807,27 @@ example : ∀ i, 1 ≤ i → (⟨["a", "b"], [[("X-A", "1")]], []⟩ : Model.C14
 -- the Spec's request part is not vacuous: a side whose /e0 carries the header declared for /e1 is rejected
 example : Spec.C14.renderHd ["^", "^X-A=1"] [0, 1, 0, 1] = "0:^|1:^X-A=1" ∧ Spec.C14.renderHd ["^", "^"] [1, 0] = "*:^" ∧
     Spec.C14.renderHd ["^"] [] = "-" := by decide
+
+-- round 3: the epilogue on concrete runs.  `/e0 a, /e1 b, /e2 a`, chosencases [a], passes 2, closing the file fails:
+-- both modes deliver [0,2,0,2], close the source once, and return the error of Close
+example : (runFinal .uri false (mkFile ["a", "b", "a"]) (isChosen ["a"]) ⟨0, 2⟩ none true true).map
+      (fun f => (f.delivered.map (·.id), f.fin.closeCalls, f.fin.sinkClosed, f.fin.err.token)) = some ([0, 2, 0, 2], 1, true, "closeerr") ∧
+    (runFinal .uri true (mkFile ["a", "b", "a"]) (isChosen ["a"]) ⟨0, 2⟩ none true true).map
+      (fun f => (f.delivered.map (·.id), f.fin.closeCalls, f.fin.sinkClosed, f.fin.err.token)) = some ([0, 2, 0, 2], 1, true, "closeerr") := by decide
+-- the same cancelled after 3 acquisitions: context.Canceled and the close error become ONE error in which neither is found
+example : (runFinal .jsonArray true (mkFile ["a", "b", "a"]) (isChosen ["a"]) ⟨0, 2⟩ (some 3) true true).map
+      (fun f => (f.delivered.map (·.id), f.fin.closeCalls, f.fin.err.token)) = some ([0, 2, 0], 1, "other") ∧
+    (runFinal .jsonArray true (mkFile ["a", "b", "a"]) (isChosen ["a"]) ⟨0, 2⟩ (some 3) true false).map
+      (fun f => (f.delivered.map (·.id), f.fin.closeCalls, f.fin.err.token)) = some ([0, 2, 0], 1, "canceled") := by decide
+-- hypotheses of C14_final_run / C14_close_fault are satisfiable; the regenerated deferred function on concrete values
+example : target 0 2 ((mkFile ["a", "b", "a"]).filter (isChosen ["a"])).length none = some 4 ∧
+    (runWith .raw false (mkFile ["a", "b", "a"]) (isChosen ["zz"]) ⟨0, 2⟩ none).map (·.run) = some .errNoAmmo ∧
+    Gen.ChosenCases.httpRunDefer true true (EV.ofRun .nil) = ⟨true, 1, ⟨.errOther, true⟩⟩ ∧
+    Gen.ChosenCases.httpRunDefer true true (EV.ofRun .errNoAmmo) = ⟨true, 1, ⟨.errOther, false⟩⟩ ∧
+    Gen.ChosenCases.httpRunDefer true false (EV.ofRun .canceled) = ⟨true, 1, ⟨.canceled, false⟩⟩ ∧
+    Gen.ChosenCases.httpRunDefer false true (EV.ofRun .nil) = ⟨true, 0, ⟨.nil, false⟩⟩ := by decide
+-- what the harness prints for these errors; errors.Join instead of the two `%w` would keep both parts findable
+example : (EV.ofClose true).token = "closeerr" ∧ (EV.join (EV.ofRun .canceled) (EV.ofClose true) true true).token = "canceled+closeerr" ∧
+    (EV.join (EV.ofRun .canceled) (EV.ofClose true) false false).token = "other" ∧ (EV.ofRun .nil).token = "nil" := by decide
 
 end Pandora.Props.C14
